@@ -213,6 +213,9 @@ func (r *Run) Body(class string) ([]byte, string) {
 			"version: \"1alpha4\"\nname: x\nrules: []\n",
 			"{{{ not a rule set",
 			"version: \"1alpha4\"\nname: x\nrules:\n- id: a\n  match:\n    routes: 17\n",
+			// what is seen of a file that is just being written (the document start marker only), and
+			// well-formed documents that are no rule sets: not empty sources, but malformed rule sets
+			"---", "---\n", "{}", "null\n",
 		}
 
 		n, _ := strconv.Atoi(strings.TrimLeft(r.Salt, "x"))
